@@ -181,7 +181,7 @@ package strategy
 //@ func (*LookupPartitionStrategy).TryAcquire
 //@   maintains[C03] s
 //@   requires room: s.busy < MaxInt32 && forall p *strategy.LookupPartition :: p.busy < MaxInt32
-//@   bind key = call 1 funcvalue:strategy.LookupPartitionStrategy.lookupFunc
+//@   bind key string = call 1 funcvalue:strategy.LookupPartitionStrategy.lookupFunc
 //@   ensures[C03] admit_iff: ok <==> (old(s.busy) < old(s.limit) || old(lookupBin(s, key).busy) < old(lookupBin(s, key).limit))
 //@   ensures[C03,C02] charge: ok ==> s.busy == old(s.busy) + 1 && lookupBin(s, key).busy == old(lookupBin(s, key).busy) + 1
 //@   ensures[C03,C02] refuse: !ok ==> s.busy == old(s.busy) && lookupBin(s, key).busy == old(lookupBin(s, key).busy)
@@ -399,3 +399,18 @@ package strategy
 //@   ensures[C01] fresh_gate: fresh(result) && *result.limit == max(1, limit) && *result.inFlight == 0 && result.metricListener != nil
 //@   ensures[C20] limit_gauge: ncalls("core.MetricRegistry.RegisterGauge") == 1 && callarg("core.MetricRegistry.RegisterGauge", 0, 0) == "limit" && isfunc(*captured(callarg("core.MetricRegistry.RegisterGauge", 0, 1), "core.NewIntMetricSupplierWrapper$1", 0), "(*strategy.SimpleStrategy).GetLimit$bound") && captured(*captured(callarg("core.MetricRegistry.RegisterGauge", 0, 1), "core.NewIntMetricSupplierWrapper$1", 0), "(*strategy.SimpleStrategy).GetLimit$bound", 0) == result
 //@   establishes[C01] result
+
+// ---------------------------------------------------------------------------------------------
+// Lemma clients (zz_lemmas_verif.go): a granted token, released, gives back exactly what it took.
+//@ func lemmaPreciseRoundTrip
+//@   requires objs: s != nil && inv(s) && s.inFlight < MaxInt32
+//@   ensures[C02] restored: s.inFlight == old(s.inFlight) && s.limit == old(s.limit)
+//@ func lemmaSimpleRoundTrip
+//@   requires objs: s != nil && inv(s) && *s.inFlight < MaxInt32
+//@   ensures[C02] restored: *s.inFlight == old(*s.inFlight) && *s.limit == old(*s.limit)
+//@ func lemmaLookupRoundTrip
+//@   requires objs: s != nil && inv(s) && s.busy < MaxInt32 && forall p *strategy.LookupPartition :: 0 <= p.busy && p.busy < MaxInt32
+//@   ensures[C02,C03] restored: s.busy == old(s.busy) && (forall q *strategy.LookupPartition :: q.busy == old(q.busy))
+//@ func lemmaPredicateRoundTrip
+//@   requires objs: s != nil && inv(s) && s.busy < MaxInt32 && forall p *strategy.PredicatePartition :: 0 <= p.busy && p.busy < MaxInt32
+//@   ensures[C02,C03] restored: s.busy == old(s.busy) && (forall q *strategy.PredicatePartition :: q.busy == old(q.busy))
